@@ -308,7 +308,7 @@ GEN = {
     "C10": "convert_geometry_to_bbox and convert_time_to_sample of the crowsetta export",
     "C08": "iterate_over_valid_clips (which clips are evaluated, and with which annotation)",
     "C09": "iterate_over_valid_clips (which clips are evaluated, and with which annotation)",
-    "C13": "_compute_similarity_matrix (the pairs on which the comparison function is queried and the row/column bookkeeping of the sparse adjacency matrix; the comparison function is a parameter, scipy's connected_components stays modelled)",
+    "C13": "_compute_similarity_matrix (the pairs on which the comparison function is queried and the row/column bookkeeping of the sparse adjacency matrix) and group_sound_events itself (the matrix handed to connected_components, the one-pass grouping by label through the defaultdict, read as the log of its insertions; the comparison function and scipy's connected_components are parameters of the generated definitions, so the theorems hold for every behaviour of either)",
 }
 for _pid, _what in GEN.items():
     _t, _n, _tech, _ref = CLAIMED[_pid]
